@@ -667,3 +667,83 @@ RULES.append(("C11.JUMP", "a step follows the language's jump rules: area evalua
 RULES.append(("C11.INIT", "the state a session starts from (and `clear` returns to): empty, stack 3 selected, no jump source (shared with C01.INIT)", p_c01.rule_init))
 
 RULES.append(("C11.STATEAPI", "the accessors of the state (selected stack, jump source, label table, command log) read and write exactly their field (shared with C01.STATEAPI)", p_c01.rule_stateapi))
+
+
+def rule_session(ctx, R):
+    """what has to hold around the steps for the displayed state to be the interpreter's: the whole program is in the
+    state's command log before the first step; a step is followed by the bound test before the next command index is
+    used; words of a command line are read only behind the test on their number; `break N` toggles exactly N"""
+    from .util import dominating_edge_labels
+    fb = ctx.fb
+    M = DebugModel(fb)
+    if not R.anchor(M.ok, "debug_model", "debug::run anchors"):
+        return
+    b, roles, cfg, vars_ = M.b, M.roles, M.cfg, M.vars
+    R.analyse(b.name)
+    ev = Events(b, fb, roles=roles)
+    LAST = "UNWRAP([T]::last(HIST))"
+    # 1. the program is logged: one push_code per command of the parsed program, unconditionally, before the history exists
+    pcs = [(bi, t) for bi, t in b.calls() if callee_name(t["f"], fb).endswith("State::push_code")]
+    ok, why = False, "no call of push_code"
+    if len(pcs) == 1:
+        pb, pt = pcs[0]
+        a = [roles.of_operand(x, pb) for x in pt["args"]]
+        lps = [(be, cfg.natural_loop(be)) for be in cfg.back_edges() if pb in cfg.natural_loop(be)]
+        its = [roles.of_operand(t["args"][0], bi) for bi, t in b.calls() if callee_name(t["f"], fb) == "core::iter::traits::collect::IntoIterator::into_iter" and reaches_without(cfg, [bi], pb)]
+        if lps:
+            be_, lp_ = min(lps, key=lambda x: len(x[1]))
+            out_ = [x for x in range(len(b.blocks)) if x not in lp_]
+            sws = [x for x in lp_ if b.blocks[x]["term"]["k"] == "switch" and any(y not in lp_ for y in cfg.succ[x])]
+            stay_ = [y for x in sws for y in cfg.succ[x] if y in lp_]
+            every = bool(stay_) and not reaches_without(cfg, stay_, [be_[1]], cut_blocks=[pb] + out_)
+            hist_init = [bi for bi, blk in enumerate(b.blocks) for st in blk["stmts"] if st["k"] == "assign" and not st["p"]["proj"] and st["p"]["l"] == M.hist]
+            hist_calls = [bi for bi, t in b.calls() if not t["dest"]["proj"] and t["dest"]["l"] == M.hist]
+            before = all(reaches_without(cfg, [pb], x) and not reaches_without(cfg, [x], pb) for x in hist_init + hist_calls)
+            ok = a[0] == "UnOptState::new()" and a[1] in ("COPY(ELEM<PROGRAM>)", "COPY(ELEM<[T]::iter(PROGRAM)>)") and "PROGRAM" in its[-1:] + its and every and before
+            why = "state %s, command %s, iterates %s, every iteration %s, before the history is created %s" % (a[0], a[1], its, every, before)
+        else:
+            why = "push_code is not in a loop"
+    R.check(ok, "session:program_logged", "every command of the program is appended to the initial state's command log before the session starts (execute_one fetches commands from that log): %s" % why, pcs[0][1]["span"]["at"] if pcs else b.span)
+    # 2. after a step, the bound test of the session loop is passed before a command index derived from the newest entry is used
+    heads = []
+    for gb, blk in enumerate(b.blocks):
+        tt = blk["term"]
+        if tt["k"] == "switch" and not blk["cleanup"]:
+            for s_ in cfg.succ[gb]:
+                if (ev.generic_edge(gb, tt, s_) or "") == "LT[%s.1,Vec::len(PROGRAM)]=1" % LAST:
+                    heads.append(gb)
+    pushes = [bi for bi, t in b.calls() if callee_name(t["f"], fb) == "std::vec::Vec::push" and roles.of_operand(t["args"][0], bi) == "HIST"]
+    uses = [bi for bi, t in b.calls() if (callee_name(t["f"], fb) == EXEC_ONE and roles.of_operand(t["args"][4], bi) == LAST + ".1") or (callee_name(t["f"], fb) == "core::ops::index::Index::index" and roles.of_operand(t["args"][0], bi) == "PROGRAM" and roles.of_operand(t["args"][1], bi) == LAST + ".1")]
+    if R.anchor(len(heads) == 1 and bool(pushes) and bool(uses), "session:bound_test", "the bound test of the session loop, the pushes of new history entries and the uses of the newest position as a command index"):
+        bad = [b.blocks[p]["term"]["span"]["at"] for p in pushes if reaches_without(cfg, cfg.succ[p], uses, cut_blocks=heads)]
+        R.check(not bad, "session:step_then_bound", "after every step the position of the new entry is compared with the program length before it is used as a command index (the prompt is left after `next` and `run`): %s" % bad, b.blocks[heads[0]]["term"]["span"]["at"])
+    # 3. words of the command line
+    n_w = 0
+    for bi, t in b.calls():
+        if callee_name(t["f"], fb) == "core::ops::index::Index::index":
+            base = roles.of_operand(t["args"][0], bi)
+            ix = roles.of_operand(t["args"][1], bi)
+            if "str::split(" in base and ix.startswith("K") and ix[1:].isdigit():
+                n_w += 1
+                k = int(ix[1:])
+                labs = dominating_edge_labels(cfg, b, ev, bi)
+                R.check(k == 0 or ("LT[Vec::len(%s),K%d]=0" % (base, k + 1)) in labs, "session:word:%d:%d" % (k, n_w), "word %d of the command line is read only when the line has more than %d word(s) (split always yields the first)" % (k, k), t["span"]["at"])
+    R.floor("word_reads", n_w, 2, "reads of a word of the command line")
+    # 4. break N toggles N
+    tog = {}
+    for bi, t in b.calls():
+        n = callee_name(t["f"], fb)
+        if n in ("std::collections::HashSet::insert", "std::collections::HashSet::remove") and roles.of_operand(t["args"][0], bi) == "BPS":
+            v = roles.of_operand(t["args"][1], bi)
+            if v == "K0":
+                continue
+            labs = [l for l in dominating_edge_labels(cfg, b, ev, bi) if l.startswith("BR[HashSet::contains(BPS,")]
+            tog.setdefault(n.rsplit("::", 1)[-1], []).append((v, labs))
+    ok = len(tog.get("insert", [])) == 1 and len(tog.get("remove", [])) == 1
+    if ok:
+        (vi, li), (vr, lr) = tog["insert"][0], tog["remove"][0]
+        ok = vi == vr and li == ["BR[HashSet::contains(BPS,%s)]=0" % vi] and lr == ["BR[HashSet::contains(BPS,%s)]=1" % vi]
+    R.check(ok, "session:bp_toggle", "`break N` sets the breakpoint N when it is not set and removes it when it is: %s" % {k: [(v[:30], [x[-12:] for x in l]) for v, l in vs] for k, vs in tog.items()}, b.span)
+
+
+RULES.append(("C11.SESSION", "the session around the steps: program logged before the first step, bound test after every step, words read behind the word-count test, `break N` toggles N", rule_session))
